@@ -291,7 +291,8 @@ def get_first_body_node_loc(body):
     if not body:
         return None
 
-    if type(body[0]) in (FunctionDef, ClassDef) and body[0].decorator_list:  # type: ignore[attr-defined]
+    if getattr(body[0], 'decorator_list', None):
+        # def, async def or class: the node is positioned at the keyword, the block starts at the first `@`
         return body[0].decorator_list[0].lineno, body[0].col_offset  # type: ignore[attr-defined]
 
     for n in body:
